@@ -26,7 +26,7 @@ ASSUMPTIONS = [
     'Rayleigh and Mie components are checked for proportionality to abundance / against C19, not against an independent cross-section',
     'H- (HydrogenIon) is generated with constant H and e- abundances: its absorption law is outside this property and is not judged; the product rule, order independence, single component and proportionality to the electron abundance are',
 ]
-REQUIRED = {'has-hminus': 0.1, 'probe:contrib-first': 0.08, 'ncontrib>=2': 0.5, 'multi-component': 0.4, 'zero-species': 0.15, 'probe:fresh': 0.1,
+REQUIRED = {'opacity:ktables': 0.1, 'has-hminus': 0.1, 'probe:contrib-first': 0.08, 'ncontrib>=2': 0.5, 'multi-component': 0.4, 'zero-species': 0.15, 'probe:fresh': 0.1,
             'probe:subgrid': 0.1, 'probe:param-change': 0.1}
 POOL = ['Absorption', 'CIA', 'Rayleigh', 'SimpleClouds', 'FlatMie', 'LeeMie', 'HydrogenIon']
 
@@ -46,6 +46,7 @@ def _case(draw):
     w = draw(S.world(layers=(2, 25), nwn=(2, 10), extras=('CIA', 'SimpleClouds'),
                      mags=['mixed', 'mixed', 'transparent', 'saturated']))
     w['extras'] = ['CIA', 'SimpleClouds']
+    w['ktables'] = draw(st.sampled_from([False, True, False]))
     # H- needs atomic hydrogen and free electrons in the mixture
     w['hminus'] = {'H': draw(st.floats(-4.0, -1.5)), 'e': draw(st.floats(-9.0, -4.0))} if 'HydrogenIon' in order else None
     return {'world': w, 'order': list(order), 'order2': draw(S.perm(list(order))), 'zero': zero,
@@ -225,7 +226,9 @@ def check(case):
                                                                      for n, s in c.prepare_each(m, W.wn)))]
         except CutError:
             continue
-        if c.name == 'Absorption':
+        if c.name == 'Absorption' and w.get('ktables'):
+            out.cls('opacity:ktables')
+        elif c.name == 'Absorption':
             for gas, sig in comps:
                 out.applies('component-sigma')
                 Tg, Pg, tab, _ = W.tables[gas]
@@ -324,7 +327,9 @@ def _lin_T(Tg, tab, T):
 
 
 def build(w, e_scale=1.0):
-    W = synth.build_world(w)
+    # a third of the worlds run in correlated-k mode (tables repeated along three quadrature points): the product rule
+    # and the independence of the insertion order are statements about optical depth, whatever the opacity method
+    W = synth.build_world(w, ktables=True, kweights=[0.2, 0.5, 0.3]) if w.get('ktables') else synth.build_world(w)
     if w.get('hminus'):
         from taurex.data.profiles.chemistry import ConstantGas
         W.chemistry.addGas(ConstantGas('H', mix_ratio=10.0 ** w['hminus']['H']))
